@@ -19,6 +19,7 @@ table() {
     C03) echo "runnersim exploration 1200 170 30000 1500";;
     C05) echo "runnersim exploration 1200 170 30000 1500";;
     C15) echo "runnersim fault_enumeration 8000 150 200000 1500";;
+    C10) echo "runnersim exploration 1200 170 30000 1500";;
     C16) echo "dutysim exploration 20000 150 500000 1500";;
     C14) echo "queuesim exploration 40000 120 1500000 1200";;
     C13) echo "elsim exploration 25000 150 260000 1200";;
